@@ -120,6 +120,7 @@ type VC struct {
 	preEval  map[ast.Expr]Term
 	argTerms []Term // evaluated arguments of the call whose anchored items are being applied
 	privSlices map[types.Object]bool // private local slices of the function under verification (private.go)
+	inSpec   int // > 0 while a specification expression is being evaluated (no code-level checks)
 }
 
 func (vc *VC) cur() *callFrame { return vc.frames[len(vc.frames)-1] }
